@@ -102,7 +102,12 @@ def direct_events(fn, infos):
 
 def analyse():
     funcs, methods = all_functions()
-    infos = {name: FnInfo(name, rel, fn) for name, (rel, fn) in funcs.items()}
+    infos = {}
+    for q, (rel, fn) in funcs.items():  # keyed by bare name (callee lookup is by name); a function with a seed parameter wins a name clash
+        name = q.rsplit("::", 1)[-1]
+        i = FnInfo(name, rel, fn)
+        if name not in infos or (i.has_seed and not infos[name].has_seed):
+            infos[name] = i
     ev = {name: direct_events(i.fn, infos) for name, i in infos.items()}
     # transitive read sets of functions without a seed parameter
     for _ in range(5):
